@@ -189,7 +189,7 @@ def build():
                    "n_jobs": [lambda: 2, lambda: None]}))
     add(Spec("PiecewiseClassifier",
              [lambda: mm.PiecewiseClassifier(random_state=0),
-              lambda: mm.PiecewiseClassifier(binner=DecisionTreeClassifier(max_depth=3), random_state=3,
+              lambda: mm.PiecewiseClassifier(binner=DecisionTreeClassifier(max_depth=3, random_state=0), random_state=3,
                                              estimator=LogisticRegression(C=0.5)),
               lambda: mm.PiecewiseClassifier(binner="bins", random_state=1, n_jobs=2)],
              clf3, lambda r: clf_data(r, n=45, d=2, labels=(0, 1)),
@@ -221,7 +221,8 @@ def build():
     add(Spec("KMeansL1L2",
              [lambda: mm.KMeansL1L2(n_clusters=3, n_init=2, random_state=0, norm="L1"),
               lambda: mm.KMeansL1L2(n_clusters=2, n_init=1, random_state=1, norm="L2", init="random"),
-              lambda: mm.KMeansL1L2(n_clusters=4, n_init=2, random_state=2, norm="L1", max_iter=20, tol=1e-3)],
+              lambda: mm.KMeansL1L2(n_clusters=4, n_init=2, random_state=2, norm="L1", max_iter=20, tol=1e-3),
+              lambda: mm.KMeansL1L2(n_clusters=3, n_init=1, random_state=4, norm="L1", init="random", max_iter=2)],
              lambda r: {"X": reg_data(r)["X"]}, lambda r: {"X": reg_data(r, n=25, d=2)["X"]},
              methods=["predict", "transform"], rowwise=["predict", "transform"], det_rs=True,
              alts={"norm": [lambda: "L1", lambda: "L2"], "init": [lambda: "random", lambda: "k-means++"],
@@ -323,7 +324,8 @@ def build():
              [lambda: mm.CategoriesToIntegers(), lambda: mm.CategoriesToIntegers(columns=["k0"], single=True),
               lambda: mm.CategoriesToIntegers(skip_errors=True, remove=["k0=a"]),
               lambda: mm.CategoriesToIntegers(columns="k1")],
-             frame_data, lambda r: frame_data(r, n=12, cats=("u", "v", "w", "zz"), ncat=1, nnum=2), kind="frame",
+             frame_data, lambda r: (lambda D: {"X": D["X"].rename(columns={"x1": "k1"})[["k0", "k1", "x0"]]})(
+                 frame_data(r, n=12, cats=("u", "v", "w", "zz"), ncat=1, nnum=2)), kind="frame",
              methods=["transform"], rowwise=["transform"],
              query=lambda rng, D: D["X"].iloc[:10],
              out=lambda est, m, Q: est.transform(Q).astype(object).to_numpy(),
